@@ -1,0 +1,102 @@
+//go:build verif
+
+package actor
+
+import (
+	"sync/atomic"
+
+	"github.com/kercylan98/vivid"
+)
+
+// VerifLiveActors returns the paths of the actor contexts currently registered in the system.
+func (s *System) VerifLiveActors() []string {
+	var out []string
+	s.actorContexts.Range(func(key, value any) bool {
+		if _, ok := value.(*Context); ok {
+			out = append(out, key.(string))
+		}
+		return true
+	})
+	return out
+}
+
+// VerifGuardClosed reports whether the root actor has terminated (guard signal closed).
+func (s *System) VerifGuardClosed() bool {
+	select {
+	case <-s.guardClosedSignal:
+		return true
+	default:
+		return false
+	}
+}
+
+// VerifSystemOf returns the system a mailbox handler belongs to (nil if it is not an actor context).
+func VerifSystemOf(h vivid.EnvelopHandler) *System {
+	if c, ok := h.(*Context); ok {
+		return c.system
+	}
+	return nil
+}
+
+// VerifPathOf returns the actor path of a mailbox handler ("" if it is not an actor context).
+func VerifPathOf(h vivid.EnvelopHandler) string {
+	if c, ok := h.(*Context); ok && c.ref != nil {
+		return c.ref.GetPath()
+	}
+	return ""
+}
+
+// VerifContextState is a read-only projection of one actor context.
+type VerifContextState struct {
+	Path       string
+	State      int32 // 0 running, 1 killing, 2 killed
+	Zombie     bool
+	Restarting bool
+	Children   []string
+	Watchers   []string
+	Stash      int
+	Paused     bool
+	Jobs       int
+}
+
+// VerifContexts returns the projection of every registered actor context. It reads actor-private
+// fields without synchronisation and must only be called while the system is quiescent.
+func (s *System) VerifContexts() []VerifContextState {
+	var out []VerifContextState
+	s.actorContexts.Range(func(key, value any) bool {
+		c, ok := value.(*Context)
+		if !ok {
+			return true
+		}
+		st := VerifContextState{Path: key.(string), State: atomic.LoadInt32(&c.state), Zombie: c.zombie,
+			Restarting: c.restarting != nil, Stash: len(c.stash), Jobs: len(c.scheduler.jobKeys)}
+		for p := range c.children {
+			st.Children = append(st.Children, p)
+		}
+		for w := range c.watchers {
+			st.Watchers = append(st.Watchers, w)
+		}
+		if c.mailbox != nil {
+			st.Paused = c.mailbox.IsPaused()
+		}
+		out = append(out, st)
+		return true
+	})
+	return out
+}
+
+// VerifFutureCount returns the number of futures registered in the system.
+func (s *System) VerifFutureCount() (registry int, agents int) {
+	s.actorContexts.Range(func(key, value any) bool {
+		if _, ok := value.(*Context); !ok {
+			registry++
+		}
+		return true
+	})
+	s.futureLock.Lock()
+	for _, m := range s.futureAgents {
+		agents += len(m)
+	}
+	s.futureLock.Unlock()
+	return
+}
